@@ -94,6 +94,37 @@ def compare(impl, model_line):
     return None
 
 
+def diag_line_difference(impl, model_line):
+    """(variant, line the implementation reports, line of the model) when implementation and model agree on outcome and on the
+    diagnostics except for the LINE of one of them; None otherwise.  The model's line is the line of the last token consumed
+    when the problem is detected (theorem C06_diagnostic_position), so such a difference is a wrong position in the library."""
+    if impl.status == 'DIED' or model_line is None or model_line.startswith('DIED'):
+        return None
+    m = sx.dec(model_line)
+    if m[0].decode() != impl.status:
+        return None
+    if impl.status == 'OK':
+        a, b = [diag_key(d) for d in impl.diags], [diag_key(d) for d in m[2]]
+    elif impl.status == 'ERR':
+        pa, pb = sx.pretty(impl.err), sx.pretty(m[1])
+        if pa[0] != 'Parser' or len(pa) < 3 or len(pb) < 3:
+            return None
+        a, b = [diag_key(impl.err)], [diag_key(m[1])]
+    else:
+        return None
+    if len(a) != len(b):
+        return None
+    found = None
+    for x, y in zip(a, b):
+        if x == y:
+            continue
+        if (x[0], x[1], x[3]) == (y[0], y[1], y[3]) and x[2] != y[2]:
+            found = found or (x[1], x[2], y[2])
+        else:
+            return None
+    return found
+
+
 def first_diff(a, b, path=''):
     if type(a) != type(b):
         return '%s: %r vs %r' % (path, sx.pretty(a), sx.pretty(b))
